@@ -196,7 +196,7 @@ def run(run):
     shard, nshards = run.shard
     rng = rng_for(run.seed, "c19", shard)
     nfam = 480 if run.tier == "quick" else 2000
-    profile = {"p_default": 0.45, "p_instance_proto": 0.5, "p_describe": 0.12, "allow_regex_nokeep_single": False,
+    profile = {"p_local_classes": 0.4, "p_default": 0.45, "p_instance_proto": 0.5, "p_describe": 0.12, "allow_regex_nokeep_single": False,
                "allow_raw_callbacks": False, "p_rep": 0.22, "p_opt": 0.14,
                "kinds": {"int": 30, "data": 26, "bits": 10, "ref": 18, "sel": 8, "em": 3}}
     if run.tier == "thorough":
